@@ -105,7 +105,7 @@ structure C10St where
 def reasonFact (s : C10St) (txt : String) : Option Bool :=
   if txt == "version is http1.0" then some s.http10
   else if txt == "client sent Connection: close" then some s.clientClose
-  else if txt == "server sent Connection: close" then some s.serverClose
+  else if txt == "server sent Connection: close" then some (s.serverClose || s.hackFired)
   else if txt == "got non-100 response before sending body" then some s.not100
   else if txt == "response body is close delimited" then some s.closeDelim
   else none
@@ -154,15 +154,15 @@ def oracleC10 (c : TCase) : Verdict :=
           | _, _ => s1)
        | _ => s1)
     | "close?" =>
-      if s.hackFired then s1 else
-      let must := s.http10 || s.clientClose || s.serverClose || s.not100 || s.closeDelim
+      -- a head accepted without its end (partial-redirect fallback): the message boundaries are lost, the
+      -- connection must close whatever Connection header the fragment carried
+      let must := s.http10 || s.clientClose || s.serverClose || s.not100 || s.closeDelim || s.hackFired
       (match t.res with
        | ["bool", b] => if (b == "true") == must then s1
-                        else { s with fail := some s!"must-close={b} but conditions: http10={s.http10} clientClose={s.clientClose} serverClose={s.serverClose} not100={s.not100} closeDelimited={s.closeDelim}" }
+                        else { s with fail := some s!"must-close={b} but conditions: http10={s.http10} clientClose={s.clientClose} serverClose={s.serverClose} not100={s.not100} closeDelimited={s.closeDelim} boundariesLost={s.hackFired}" }
        | _ => s1)
     | "reason" =>
-      if s.hackFired then s1 else
-      let must := s.http10 || s.clientClose || s.serverClose || s.not100 || s.closeDelim
+      let must := s.http10 || s.clientClose || s.serverClose || s.not100 || s.closeDelim || s.hackFired
       (match t.res with
        | "str" :: ws =>
          let txt := " ".intercalate ws
